@@ -32,6 +32,10 @@ OFF = 0.1                # OFFSCREEN_FACTOR
 
 ARC_MODELS = ["poincare", "halfspace"]
 
+# displayed ideal points (geodesic endpoints, horosphere centres) are either exactly the
+# half-plane point at infinity (exact data, no transform) or at angular distance >= this
+IDEAL_GAP = 0.06
+
 RULE = ("cases: a drawing (model Poincare / half-plane / Klein, or a ProjectiveDrawing in chart "
         "0/1/2; figure size 1..8, created by the class or on caller-supplied axes) with a "
         "transform program of 0..3 steps (constructor transform=, set_transform, add_transform, "
@@ -233,23 +237,22 @@ def straight_edge(draw, model):
 
 
 @st.composite
-def threshold_radius(draw):
+def threshold_radius(draw, thr=THRESH):
     d = math.exp(draw(fl(math.log(0.021), math.log(1.0))))
     if draw(st.booleans()):
-        return THRESH * (1 + d)
-    return THRESH * (1 - min(d, 0.9))
+        return thr * (1 + d)
+    return thr * (1 - min(d, 0.9))
 
 
 @st.composite
-def threshold_edge(draw, model, R=None):
+def threshold_edge(draw, model, thr=THRESH):
     """two model points on a geodesic circle of Euclidean radius R close to the threshold"""
-    if R is None:
-        R = draw(threshold_radius())
+    R = draw(threshold_radius(thr))
     if model == "halfspace":
         x0 = draw(fl(-4.0, 4.0))
         side = draw(st.sampled_from([-1.0, 1.0]))
-        y1 = math.exp(draw(fl(math.log(0.3), math.log(4.0))))
-        y2 = y1 * draw(fl(1.15, 3.0))
+        y1 = min(math.exp(draw(fl(math.log(0.3), math.log(4.0)))), 0.5 * R)
+        y2 = min(y1 * draw(fl(1.15, 3.0)), 0.9 * R)
         pts = []
         for y in (y1, y2):
             th = math.asin(y / R)
@@ -258,7 +261,7 @@ def threshold_edge(draw, model, R=None):
     else:
         phi = draw(ANG)
         alpha = math.atan(1.0 / R)
-        w = draw(fl(0.05, 1.0))
+        w = draw(fl(0.05, 1.0)) * min(1.0, 1.2 * R * alpha)
         half = w / (2 * R)
         mid = draw(fl(-1.0, 1.0)) * (0.85 * alpha - half)
         c = math.sqrt(1 + R * R) * cis(phi)
@@ -576,12 +579,12 @@ def model_point(draw, model):
 
 
 @st.composite
-def segment_pair(draw, model, kind):
+def segment_pair(draw, model, kind, thr=THRESH):
     """displayed endpoints (model coordinates) of a segment with |p-q| >= 1e-2"""
     if kind == "straight":
         return list(draw(straight_edge(model)))
     if kind == "threshold":
-        return list(draw(threshold_edge(model)))
+        return list(draw(threshold_edge(model, thr)))
     p = draw(model_point(model))
     a = draw(ANG)
     if model == "halfspace":
@@ -601,37 +604,38 @@ def segment_pair(draw, model, kind):
 
 
 @st.composite
-def ideal_pair(draw, model, kind):
-    """displayed ideal endpoints as angles on the unit circle (half-plane: both >= 0.05
-    away from the point at infinity, angle 0, unless kind == 'infinity')"""
-    if kind == "straight":
-        a = draw(fl(0.1, 2 * math.pi - 0.1))
-        if model == "halfspace":
-            return [0.0, a] if draw(st.booleans()) else [a, 0.0]     # vertical line
-        return [a, a + math.pi]                                          # diameter
+def ideal_pair(draw, model, kind, thr=THRESH):
+    """displayed ideal endpoints as angles on the unit circle.  Half-plane: every endpoint
+    keeps angular distance >= IDEAL_GAP from the point at infinity (angle 0), except for
+    kind 'infinity' where one endpoint is exactly there (only used without a transform)."""
+    two = 2 * math.pi
+    if kind == "infinity":            # half-plane only: a vertical line
+        a = draw(fl(IDEAL_GAP, two - IDEAL_GAP))
+        return [0.0, a] if draw(st.booleans()) else [a, 0.0]
+    if kind == "straight" and model != "halfspace":
+        a = draw(fl(0.0, two))
+        return [a, a + math.pi]       # diameter
     if kind == "threshold":
-        R = draw(threshold_radius())
+        d = math.exp(draw(fl(math.log(0.021), math.log(1.0))))
+        R = thr * (1 + d) if draw(st.booleans()) else thr * (1 - min(d, 0.9))
         if model == "halfspace":
+            R = min(R, 16.0)          # |x| <= 37: angular distance from infinity >= 0.054
             x0 = draw(fl(-5.0, 5.0))
             x1 = x0 + draw(st.sampled_from([-2.0, 2.0])) * R
-            # ideal point with half-plane coordinate x: angle with -sin/(1-cos) = x
-            ang = [2 * math.atan2(-1.0, x) % (2 * math.pi) for x in (x0, x1)]
+            # ideal point with half-plane coordinate x = -cot(a/2)
+            ang = [(2 * math.atan2(-1.0, x)) % two for x in (x0, x1)]
         else:
             phi = draw(ANG)
-            # endpoints of the orthogonal circle of radius R centred in direction phi:
-            # they sit at angle +-beta from phi with tan(beta) = R
-            beta = math.atan(R)
+            beta = math.atan(R)       # endpoints of the orthogonal circle of radius R
             ang = [phi + beta, phi - beta]
         return ang if draw(st.booleans()) else ang[::-1]
-    a = draw(fl(0.06, 2 * math.pi - 0.06))
-    gap = draw(fl(0.05, 2 * math.pi - 0.17))
-    b = a + gap
     if model == "halfspace":
-        # keep b away from angle 0 (mod 2 pi) as well
-        bm = b % (2 * math.pi)
-        if bm < 0.06 or bm > 2 * math.pi - 0.06:
-            b = a + gap / 2
-    return [a, b]
+        a = draw(fl(IDEAL_GAP, two - 2 * IDEAL_GAP))
+        b = a + draw(fl(0.05, two - IDEAL_GAP - a))
+    else:
+        a = draw(fl(0.0, two))
+        b = a + draw(fl(0.05, two - 0.05))
+    return [a, b] if draw(st.booleans()) else [b, a]
 
 
 GEO_KINDS = ["generic", "generic", "generic", "straight", "threshold", "threshold"]
@@ -643,22 +647,34 @@ def geodesic_case(draw):
     obj = draw(st.sampled_from(["segment", "segment", "geodesic"]))
     shape = draw(SHAPES)
     count = gen.prod(shape)
-    prog = draw(program(iso_matrix()))
+    exact_inf = draw(st.integers(0, 5)) == 0
+    if exact_inf:       # vertical geodesics ending exactly at the point at infinity
+        model, obj, prog = "halfspace", "geodesic", []
+    else:
+        prog = draw(program(iso_matrix()))
+    thr = draw(st.sampled_from([None, None, None, 1.5, 10.0]))
+    if obj == "geodesic" and model == "halfspace" and thr is None and not exact_inf \
+            and draw(st.booleans()):
+        thr = 10.0      # the default threshold is out of reach of well-conditioned endpoints
     M = D.run_program(prog)
     Minv = D.iso_inverse(M)
     gm = "poincare" if model == "klein" else model
     items, kinds = [], []
     for _ in range(count):
         kind = draw(st.sampled_from(GEO_KINDS))
+        if obj == "geodesic" and gm == "halfspace":
+            if exact_inf and draw(st.booleans()):
+                kind = "infinity"
+            elif kind == "straight" or (kind == "threshold" and thr is None):
+                kind = "generic"
         kinds.append(kind)
         if obj == "segment":
-            pq = np.array(draw(segment_pair(gm, kind)))
+            pq = np.array(draw(segment_pair(gm, kind, THRESH if thr is None else thr)))
             items.append(pull_back(D.from_model(pq, gm), M).tolist())
         else:
-            ang = draw(ideal_pair(gm, kind))
+            ang = draw(ideal_pair(gm, kind, THRESH if thr is None else thr))
             U = np.array([[1.0, math.cos(t), math.sin(t)] for t in ang]) @ Minv
             items.append((U / U[:, :1]).tolist())
-    thr = draw(st.sampled_from([None, None, None, 1.5, 10.0]))
     case = dict(model=model, obj=obj, shape=shape, prog=prog, items=items, kinds=kinds,
                 fig=draw(FIG), style=draw(st.sampled_from([{}, {}, {"color": "green"}])),
                 thr=thr)
@@ -666,8 +682,7 @@ def geodesic_case(draw):
         case.update(draw(source_spec(count * 2)))
     else:
         case["src"] = "projective"
-        s = [draw(gen.scalars_pm()) for _ in range(count * 2)]
-        case["scales"] = s
+        case["scales"] = [draw(gen.scalars_pm()) for _ in range(count * 2)]
     return case
 
 
@@ -993,13 +1008,17 @@ def horo_case(draw):
     what = draw(st.sampled_from(["sphere", "sphere", "arc"]))
     shape = draw(SHAPES)
     count = gen.prod(shape)
-    prog = draw(program(iso_matrix()))
+    exact_inf = draw(st.integers(0, 4)) == 0
+    if exact_inf:       # centres exactly at the half-plane point at infinity: no transform
+        model, prog = "halfspace", []
+    else:
+        prog = draw(program(iso_matrix()))
     M = D.run_program(prog)
     Minv = D.iso_inverse(M)
     items, kinds = [], []
     for _ in range(count):
-        at_inf = model == "halfspace" and draw(st.integers(0, 4)) == 0
-        t = 0.0 if at_inf else draw(fl(0.06, 2 * math.pi - 0.06))
+        at_inf = exact_inf and draw(st.booleans())
+        t = 0.0 if at_inf else draw(fl(IDEAL_GAP, 2 * math.pi - IDEAL_GAP))
         kinds.append("centre-at-infinity" if at_inf else "generic")
         u = cis(t)
         rho = draw(fl(0.05, 0.9))          # Poincare radius of the displayed horocircle
@@ -1019,6 +1038,10 @@ def horo_case(draw):
                 scales=[draw(gen.scalars_pm()) for _ in range(2 * count)])
 
 
+# ideal points reach Poincare coordinates through sqrt(1-|k|^2) ~ sqrt(eps): 1e-8 noise
+HORO_TOL = {"poincare": 2e-6, "halfspace": 2e-5}
+
+
 def body_horo(case, ctx):
     model, shape, what = case["model"], tuple(case["shape"]), case["what"]
     M = D.run_program(case["prog"])
@@ -1029,12 +1052,12 @@ def body_horo(case, ctx):
     PK = np.array([it["p"] for it in case["items"]], dtype=float).reshape(shape + (2, 2))
     su = np.array(case["su"], dtype=float).reshape(shape + (1,))
     centre = hyperbolic.IdealPoint(Uin * su)
-    pts = build_points(PK, case)
+    p0 = build_points(PK[..., 0, :], dict(src=case["src"], scales=case["scales"][:count]))
+    p1 = build_points(PK[..., 1, :], dict(src=case["src"], scales=case["scales"][count:]))
     if what == "sphere":
-        lib = hyperbolic.Horosphere(centre, pts[..., 0] if shape else pts[0])
+        lib = hyperbolic.Horosphere(centre, p0)
     else:
-        lib = hyperbolic.HorosphereArc(centre, pts[..., 0] if shape else pts[0],
-                                       pts[..., 1] if shape else pts[1])
+        lib = hyperbolic.HorosphereArc(centre, p0, p1)
     ctx.check(lib.shape == shape, "composite shape", got=lib.shape, want=shape)
     Y = (Uin @ M).reshape((-1, 3))
     U = Y[:, 1:] / Y[:, :1]
@@ -1092,7 +1115,7 @@ def body_horo(case, ctx):
             ctx.check(data_units and np.all(ang == 0), "ellipses are unrotated, in data units")
             for j, k in enumerate(circ):
                 c, r = exp[k]
-                tol = (1e-9 if model == "poincare" else 2e-5) * (1 + r + np.max(np.abs(c)))
+                tol = HORO_TOL[model] * (1 + r + np.max(np.abs(c)))
                 ctx.small("ellipse offset = centre of the horocircle", np.abs(off[j] - c) / tol,
                           1.0, k=k, got=off[j], want=c)
                 ctx.small("ellipse width = height = 2 r",
@@ -1104,10 +1127,15 @@ def body_horo(case, ctx):
                 S = off[j] + 0.5 * w[j] * np.stack([np.cos(th), np.sin(th)], axis=-1)
                 tang = D.ideal_to_model(U[k], model)
                 far = np.linalg.norm(S - tang, axis=-1) > 0.2 * r
-                b = D.busemann(U[k], S[far], model)
+                S = S[far]
+                b = D.busemann(U[k], S, model)
                 b0 = D.busemann(U[k], Q[k][0], model)
+                # sensitivity of the Busemann function to a displacement of size tol
+                room = (1 - np.sum(S * S, axis=-1)) if model == "poincare" else S[:, 1]
+                btol = 4 * tol * (1.0 / np.linalg.norm(S - tang, axis=-1)
+                                  + 1.0 / np.maximum(room, 1e-300)) + 1e-9
                 ctx.small("drawn circle is a horocycle through the reference point",
-                          (b - b0) / (1e-6 if model == "poincare" else 1e-3), 1.0, k=k)
+                          (b - b0) / btol, 1.0, k=k)
                 ctx.label("circle")
         rects = [p for p in patches if p[0] == "rect"]
         ctx.check(len(rects) == len(flat) and len(patches) == len(flat),
@@ -1142,7 +1170,7 @@ def body_horo(case, ctx):
             continue
         ctx.check(pa[0] == "arc", "horospherical arc is an Arc", kind=pa[0], radius=r)
         _, ctr, w, h, t1, t2, ang = pa
-        tol = (1e-9 if model == "poincare" else 2e-5) * (1 + r + np.max(np.abs(c)))
+        tol = HORO_TOL[model] * (1 + r + np.max(np.abs(c)))
         ctx.small("Arc centre = centre of the horocircle", np.abs(ctr - c) / tol, 1.0, k=k,
                   got=ctr, want=c)
         ctx.small("Arc width = height = 2 r", np.array([w - 2 * r, h - 2 * r]) / (2 * tol),
@@ -1177,6 +1205,8 @@ def wrongdim_case(draw):
     dim = draw(st.sampled_from([1, 3]))
     method = draw(st.sampled_from(HYP_METHODS if cls == "hyperbolic" else PROJ_METHODS))
     model = draw(st.sampled_from(["poincare", "halfspace", "klein"]))
+    if method.startswith("draw_horo") and model == "klein":
+        model = "poincare"       # horospheres are not implemented in the Klein model
     shape = draw(SHAPES)
     count = gen.prod(shape)
     k = 4
@@ -1194,6 +1224,8 @@ def wrongdim_exhaustive(tier):
             for method in methods:
                 for model in (["poincare", "halfspace", "klein"] if cls == "hyperbolic"
                               else ["-"]):
+                    if method.startswith("draw_horo") and model == "klein":
+                        continue
                     for shape in ([], [2]):
                         count = gen.prod(shape)
                         pts = [[[0.1 * (i + 1) * (1 if j % 2 else -1) / (1 + j)
